@@ -1,8 +1,8 @@
 (* C12 -- maximum_color adds colour tables without altering the font.
    Only statements and `exact`; proofs live in Proofs/. *)
-From Coq Require Import List ZArith NArith QArith Permutation.
+From Coq Require Import List ZArith NArith QArith Permutation Sorted.
 From Verif Require Import Model.Field Model.Affine Model.ViewBox Model.Glue Model.Csv Model.Fixed.
-From Verif Require Import Proofs.Glue_facts Proofs.GluePlace_facts.
+From Verif Require Import Proofs.Glue_facts Proofs.GluePlace_facts Model.GlyphmapPairs Proofs.GlyphmapPairs_facts.
 Import ListNotations.
 
 (* T1 (_copy_svg): when the order construction succeeds every donor SVG glyph sits at its
@@ -71,3 +71,19 @@ Theorem C12_copy_colr_order_clash :
   In g target -> In g layers -> ~ NoDup (copy_colr_order target layers).
 Proof. exact copy_colr_order_clash. Qed.
 Print Assumptions C12_copy_colr_order_clash.
+
+(* T6 (write_glyphmap_for_glyph_svgs): when the per-glyph SVG files are listed before the
+   bitmaps (as maximum_color lists them), every SVG gets exactly one row, rows come in increasing
+   glyph id, and a row carries a bitmap exactly when a bitmap of the same number was listed - the
+   AssertionErrors of the pairing loop cannot fire.  (Listing a bitmap before its SVG is what
+   would break the pairing: the sort is stable and the loop reads from the end.) *)
+Theorem C12_glyphmap_rows_spec :
+  forall (svgs pngs : list nat),
+  NoDup svgs -> NoDup pngs -> incl pngs svgs ->
+  exists rows,
+    glyphmap_rows (svg_files svgs ++ png_files pngs) = Some rows /\
+    StronglySorted lt (map fst rows) /\
+    Permutation (map fst rows) svgs /\
+    (forall k b, In (k, b) rows -> (b = true <-> In k pngs)).
+Proof. exact glyphmap_rows_spec. Qed.
+Print Assumptions C12_glyphmap_rows_spec.
